@@ -1,9 +1,9 @@
 (* C09  Number arithmetic is exact or unit, never wrapped.
    Only statements, [exact] and [Print Assumptions] live here. *)
-From Coq Require Import ZArith Bool Reals List.
+From Coq Require Import ZArith Bool Reals Psatz List.
 From Flocq Require Import Core IEEE754.BinarySingleNaN IEEE754.Binary IEEE754.Bits.
 From GV Require Import Model.Num Spec.ExactArith Proofs.C09.IntArith Proofs.C09.Promote
-  Proofs.C09.IntOps Proofs.C09.FloatOps.
+  Proofs.C09.IntOps Proofs.C09.FloatOps Proofs.C09.Fmod.
 Local Open Scope Z_scope.
 
 (* integers: every binary operation of GarnishNumber on two i32 values returns
@@ -72,3 +72,32 @@ Example C09_ex_overflow : forall powf,
   num_binop powf OpDiv (Int (-7)) (Int 2) = Some (Int (-3)) /\
   num_unop OpAbs (Int i32_min) = None.
 Proof. intros powf. vm_compute. repeat split; reflexivity. Qed.
+
+(* float and mixed remainder `%` (Rust's f64 `%`, i.e. C fmod) is EXACT, never rounded and
+   never unit for a non-zero divisor: the result r is finite, r = l - q * r' for an integer
+   q, |r| < |divisor|, and r is zero or has the sign of the dividend (the C standard's
+   definition of fmod).  [C09_remainder_spec_unique]: that definition determines r. *)
+Theorem C09_float_remainder_exact : forall powf l r,
+  num_ok l -> num_ok r -> has_float l r -> num_real r <> 0%R ->
+  exists f, num_binop powf OpRem l r = Some (Flt f) /\ is_finite 53 1024 f = true /\
+            fmod_spec (num_real l) (num_real r) (B2R 53 1024 f).
+Proof. exact float_rem_exact. Qed.
+Print Assumptions C09_float_remainder_exact.
+
+Theorem C09_remainder_spec_unique : forall x y r1 r2,
+  fmod_spec x y r1 -> fmod_spec x y r2 -> r1 = r2.
+Proof. exact fmod_spec_unique. Qed.
+Print Assumptions C09_remainder_spec_unique.
+
+(* non-vacuity: 5.5 % 2 = 1.5, -5.5 % 2 = -1.5, 7 % 0.5 = 0, and the hypotheses hold there *)
+Example C09_ex_remainder : forall powf,
+  let h := f64_div (f64_of_i32 1) (f64_of_i32 2) in
+  let x := f64_add (f64_of_i32 5) h in
+  (match num_binop powf OpRem (Flt x) (Int 2) with
+   | Some (Flt f) => b64_compare f (f64_add (f64_of_i32 1) h) | _ => None end) = Some Eq /\
+  (match num_binop powf OpRem (Flt (f64_neg x)) (Int 2) with
+   | Some (Flt f) => b64_compare f (f64_neg (f64_add (f64_of_i32 1) h)) | _ => None end) = Some Eq /\
+  (match num_binop powf OpRem (Int 7) (Flt h) with
+   | Some (Flt f) => b64_compare f (f64_of_i32 0) | _ => None end) = Some Eq /\
+  num_ok (Flt x) /\ num_ok (Int 2) /\ has_float (Flt x) (Int 2) /\ num_real (Int 2) <> 0%R.
+Proof. intros powf. repeat split; try (vm_compute; reflexivity); try exact I. simpl. lra. Qed.
